@@ -1388,3 +1388,66 @@ func isConstIntVal(v ssa.Value) bool {
 	_, ok := constInt(v)
 	return ok
 }
+
+// ---------- R13.10: the DIMACS reader of package explain ends a clause at the terminator, not at the end of a line ----------
+
+func ruleR13_10(w *World, r *Report) {
+	r.Rule("R13.10", "in explain.ParseCNF a clause is handed to the problem inside the reading loop only under a test that the token just read is the terminator 0 (a clause may span several lines and a line may hold several clauses); what is still pending at the end of the input is flushed after the loop", 1)
+	fn := w.Func("explain", "ParseCNF")
+	if fn == nil {
+		r.Unk("R13.10", "explain.ParseCNF", "-", "function not found")
+		return
+	}
+	// clause sinks: module functions that append to Problem.Clauses
+	isSink := func(c *ssa.Function) bool {
+		for _, gs := range growthSites(c) {
+			if gs.Field == "explain.Problem.Clauses" {
+				return true
+			}
+		}
+		return false
+	}
+	n := 0
+	var bad []string
+	for _, ci := range callsIn(fn) {
+		c, ok := ci.(*ssa.Call)
+		if !ok || !inLoop(fn, c.Block()) {
+			continue
+		}
+		sink := false
+		for _, callee := range w.Callees[c] {
+			if isSink(callee) {
+				sink = true
+			}
+		}
+		if !sink {
+			continue
+		}
+		n++
+		okc := false
+		for _, ec := range dominatingConds(c.Block()) {
+			bo, isB := ec.Cond.(*ssa.BinOp)
+			if !isB || (bo.Op != token.EQL && bo.Op != token.NEQ) || (bo.Op == token.EQL) != ec.True {
+				continue
+			}
+			if s, isS := constString(bo.Y); isS && s == "0" {
+				okc = true
+			}
+			if k, isK := constInt(bo.Y); isK && k == 0 && typeShort(bo.X.Type()) == "int" {
+				okc = true
+			}
+		}
+		if !okc {
+			bad = append(bad, w.InstrPos(c))
+		}
+	}
+	key := "explain.ParseCNF closes clauses at the terminator"
+	switch {
+	case n == 0:
+		r.Unk("R13.10", key, w.Pos(fn.Pos()), "no call handing a clause to the problem inside the reading loop")
+	case len(bad) > 0:
+		r.Bad("R13.10", key, bad[0], "a clause is handed to the problem at "+strings.Join(bad, ", ")+" once per line, whether or not the terminator 0 was read: a clause written over two lines becomes two clauses, two clauses on one line become one (with the inner 0 dropped), and the MUS / certificate functions then work on another formula")
+	default:
+		r.OK("R13.10", key, w.Pos(fn.Pos()), fmt.Sprintf("%d hand-over(s) in the loop, each under a terminator test", n))
+	}
+}
